@@ -18,7 +18,7 @@ from props import _c07_common as common
 ID = "C07"
 RULE = ("Stochastic model programs with pub/sub fan-out: C02-style handlers + random delays and observations drawn "
         "from shared seeded streams + handlers that fire one of 4 bus event types to <=5 listeners subscribed in a "
-        "generated order (seeds installed directly or through a StreamSeedUpdater with a seed table and a user-defined "
+        "generated order (stream 0 optionally the default stream of a StreamInformation() created by the model; seeds installed directly or through a StreamSeedUpdater with a seed table and a user-defined "
         "order-sensitive fallback updater, or the library's default fallback after earlier update_seeds calls for other replications), whose notify scripts draw from the shared streams, schedule events, make observations and "
         "subscribe/unsubscribe listeners (handlers do so too). "
         "(i) in-process (Hypothesis): each program is run plain, with a stop()/start() pause after event k, with a "
@@ -110,6 +110,7 @@ def case_strategy(tier):
             while len(seeds) < 3:
                 seeds.append(draw(st.integers(0, 50)))
         return {"prog": prog, "bus": {"listeners": listeners, "order": order}, "seeds": seeds, "updater": upd,
+                "default_info": draw(st.sampled_from([False, False, True])),
                 "k": draw(st.integers(1, 25)), "frac": draw(st.integers(1, 9)), "prior": draw(st.sampled_from([0, 50, 300]))}
     return case()
 
@@ -156,6 +157,8 @@ def _nontrivial(case, d):
 def run_case(case):
     out = Outcome()
     out.label("clock=" + case["prog"]["clock"])
+    if case.get("default_info"):
+        out.label("default-stream-of-StreamInformation")
     plain = common.run_program(case, ["plain"])
     # subscription order: every fire is delivered to the listeners subscribed to its type at the moment of
     # firing, in subscription order (the delivery log also carries the SUB / UNSUB operations of the run)
